@@ -62,3 +62,10 @@ Print Assumptions C37_repairs_independent.
    and the guard of the code as it is, and round-trips *)
 Example C37_nonvacuous : wf ex_ok /\ guard asis ex_ok /\ roundtrip ex_ok = Some (Ok (map forget_sort ex_ok)).
 Proof. exact ex_ok_wf_guard. Qed.
+
+(* no information the property lists is lost in the message: well-formed reports with the same serialization
+   agree on every field but sortOrder (a corollary of the round trip) *)
+Theorem C37_to_proto_injective : forall r1 r2, wf r1 -> wf r2 ->
+  to_proto_v repaired r1 = to_proto_v repaired r2 -> map forget_sort r1 = map forget_sort r2.
+Proof. exact to_proto_injective_lemma. Qed.
+Print Assumptions C37_to_proto_injective.
